@@ -33,6 +33,11 @@ for line in sys.stdin.read().split("\n"):
     elif line.startswith("EXPECT "): cur["expect"] = line[7:].strip()
     elif line.startswith("FILE "): f = line[5:].strip()
     elif line == "<<<<": mode = "old"; buf = []
+expanded = []
+for m in muts:
+    for pr in m["prop"].split(","):
+        x = dict(m); x["prop"] = pr.strip(); expanded.append(x)
+muts = expanded
 for m in muts:
     db["mutants"] = [x for x in db["mutants"] if not (x["prop"] == m["prop"] and x["name"] == m["name"])]
     db["mutants"].append(m)
